@@ -658,9 +658,11 @@ func (t *patricia[V]) WithPrefix(key string) []KeyValue[string, V] {
 // LongestPrefix returns the key and associated value in the Patricia trie
 // that is the longest prefix of the given key.
 func (t *patricia[V]) LongestPrefixOf(key string) (string, V, bool) {
-	bitKey := newBitString(key)
-	if n := t.search(bitKey); n != nil && bitKey.HasPrefix(n.key) {
-		return n.key.String(), n.val, true
+	// The search for a key ends at the one candidate for that key only, so every prefix is looked up.
+	for i := len(key); i > 0; i-- {
+		if val, ok := t._get(newBitString(key[:i])); ok {
+			return key[:i], val, true
+		}
 	}
 
 	var zeroV V
